@@ -17,10 +17,11 @@ for k in sorted(r, key=lambda s: (s.split("-")[0], int(s.split("-")[1]))):
     rows.append(f"| {k} | {title} | {', '.join(m['files'])[:60]} | {'; '.join(cells)} |")
 tab = "\n".join(rows)
 n = len(r)
+ROUNDS_WORD = "nine"
 txt = open(f"{V}/tools/design_asbuilt.md").read()
 txt += f"""### 10.8 Seeded changes: which check catches which change
 
-{n} breaking changes were produced in eight rounds by fresh sub-agents that saw only the text of one
+{n} breaking changes were produced in {ROUNDS_WORD} rounds by fresh sub-agents that saw only the text of one
 property and a scratch worktree under /tmp (round 1: two per property, ids `Cnn-1`, `Cnn-2`;
 round 2: one more per property, `Cnn-3`, asked to look away from the most obvious place; round 3:
 `Cnn-4`, given one-line descriptions of the earlier changes to that property and asked for something
@@ -33,7 +34,8 @@ early exits from loops, truthiness of optional values; round 6: `Cnn-7`, asked f
 shows only on an unusual but legitimate input or situation; round 7: `Cnn-8`, the same with all
 earlier descriptions listed and interactions of two features, error and clean-up paths and values at
 the edge of their range suggested; round 8: `Cnn-9`, pointed at the way the code uses its libraries
-and at the stand-alone tools). Each
+and at the stand-alone tools; round 9: `Cnn-10`, the same brief with nine earlier descriptions per
+property to stay away from). Each
 was confirmed by me (applies to HEAD, suite still 147 passed, its own `demo.py` exits 0 without
 and 1 with the change — `seeded/<id>/confirm.txt`) and is kept as
 `seeded/<id>/{{patch.diff, demo.py, notes.md, meta.json}}`. `tools/seed_matrix.py` applies each to
@@ -241,7 +243,45 @@ What the seeded changes taught, and what was added to the checks because of them
   Observation from C12-9's input (not a finding under any of the twenty properties): key identity
   across bundles is decided on the base64 *text*; the same ZSK written on one line in one bundle and
   broken into lines in another is reported as "key tag matches two different keys".
-* Everything else in the eight rounds was caught by the check as it stood.
+* Round 9 (`Cnn-10`): first sweep 3 of 20 reported by their own check with a failing input (C03,
+  C06, C08), 2 through a broken bridge without an input (C11, C16), 15 not at all - 11 of those were
+  reported with a failing input by a neighbouring property's check. Several sub-agents
+  independently re-used a slip that an earlier round had used for *another* property (the
+  `astimezone` reading of zone-less timestamps for C01 and C12, `splitlines()` for C02, the
+  `zip(bundles, schema.actions.values())` pairing for C10): inputs added for one property's check do
+  not protect its neighbours, so each of those inputs now also exists in the neighbour. All twenty
+  are now reported by their own property's check with a failing input. What was added:
+  C01-10/C12-10 (time zone) -> C01 signs KSR *documents* read in four zones and three notations with
+  the KSK's validity window set exactly to the first inception and last expiration (and compares the
+  written SKR's instants, not their text), C12 compares the typed timestamps of documents read in
+  other zones with the generator's instants; C02-10 (`splitlines`) -> bundle and key identifiers
+  with U+2028/U+2029/U+0085, blanks and non-ASCII letters through signing and the written SKR;
+  C04-10 (key tag folds the second carry back in) -> a KSK whose tag sum carries twice, configured
+  with its tag, tag+1 and tag-1, with and without DS, as signer and published-only; C05-10 (options
+  dropped by truthiness when the configuration is loaded) -> the request policy written as YAML
+  text and loaded through the configuration reader, one check switched off there and one rule
+  violated, zero-valued options; the loaded policy is compared with the written one; C07-10 (TTL
+  upper bound exclusive) -> honest bundles with TTL 0, 1, 2^31-2, 2^31-1; C09-10 (response
+  signatures keyed by key tag) -> a previous SKR *file* whose bundles are signed by two KSKs with
+  the same key tag, successors that withdraw either of them; C10-10 (schema slots paired by
+  position) -> the ceremony configuration lists every schema's slots rotated or reversed; C11-10
+  (SKR reader re-sorts bundles by inception) -> responses in which a bundle starts before its
+  predecessor and expires after it; C13-10 (signatures collapsed per key identifier) -> bundles
+  carrying a second, non-verifying signature under the identifier of a validly signing key, before
+  and after the good one, KSR and SKR; C14-10 (`model_construct` skips the curve/size validator)
+  -> `public_key_to_dnssec_key` on points of the other curve, one octet short, two long, with and
+  without SEC1 prefix, and on impossible flags; C15-10 (located keys memoised per module without
+  the hash mode) -> sequences of look-ups of one label on one module object under different hash
+  modes, the token's sign log compared with the reference per step, and a look-up after the objects
+  were removed; C16-10 (the token check reads the wrong option) -> a one-flag-one-check matrix for
+  the three chain rules; C17-10 (ZSK tags of a table row collected in a set) -> bundles holding two
+  ZSKs with equal key tags, the row's tag column compared as a multiset; C18-10 (`os.open` without
+  `O_TRUNC`) -> every second export in C18 writes over a longer anchor document; C19-10 (`--hsm`
+  overwritten by the sub-parser's default) -> `main()` with two configured HSMs holding the same
+  label, keygen and keydelete with `--hsm` naming each in turn; C20-10 (first same-size RSA entry
+  decides) -> ZSK policies declaring two exponents for one algorithm and size, both listing orders,
+  six exponent values (set iteration order decides which is met first).
+* Everything else in the {ROUNDS_WORD} rounds was caught by the check as it stood.
 
 ### 10.9 Running it
 
